@@ -53,19 +53,20 @@ func init() {
 }
 
 type caller struct {
-	id        string
-	fails     int
-	behaviour string // drain | one-late | never-read | cancel-now | single
-	expect    int    // replies the handler will produce
-	got       []string
-	foreign   []string
-	timeouts  int
-	closed    bool
-	sendErr   string
-	ch        <-chan requestreply.Reply[Res]
-	cancel    func()
-	cancelCtx func()
-	done      chan struct{}
+	id         string
+	fails      int
+	replyFault bool   // the first Publish of a reply for this command is rejected by the reply publisher
+	behaviour  string // drain | one-late | never-read | cancel-now | single
+	expect     int    // replies the handler will produce
+	got        []string
+	foreign    []string
+	timeouts   int
+	closed     bool
+	sendErr    string
+	ch         <-chan requestreply.Reply[Res]
+	cancel     func()
+	cancelCtx  func()
+	done       chan struct{}
 }
 
 func run(e *vlib.Env) vlib.Result {
@@ -74,9 +75,10 @@ func run(e *vlib.Env) vlib.Result {
 	n := r.Range(1, 32)
 	ackErrors := r.Bool()
 	useTimeout := r.Chance(0.2)
+	useOnHandle := r.Bool()
 	yieldP := []float64{0, 0.3, 0.6}[r.Intn(3)]
 	timeout := 25 * time.Millisecond
-	spec := fmt.Sprintf("requests=%d ackCommandErrors=%v listenTimeout=%v yield=%.1f", n, ackErrors, useTimeout, yieldP)
+	spec := fmt.Sprintf("requests=%d ackCommandErrors=%v listenTimeout=%v onHandle=%v yield=%.1f", n, ackErrors, useTimeout, useOnHandle, yieldP)
 	res := vlib.Result{Class: fmt.Sprintf("ackErrors=%v/timeout=%v", ackErrors, useTimeout), Spec: spec}
 	wo := vlib.WaitOpts{Watchdog: 40 * time.Second, NoTimerCheck: []string{wgtFrame}}
 
@@ -97,8 +99,30 @@ func run(e *vlib.Env) vlib.Result {
 	var settledEarly []string
 	handlerCalls := map[string]int{}
 	var events atomic.Int64
+	runaway := make(chan struct{})
+	var runawayOnce sync.Once
+	var runawayCmd atomic.Pointer[string]
+	defer runawayOnce.Do(func() { close(runaway) })
 
-	replyPub := &samplingPub{inner: ps, after: func(msgs []*message.Message) {
+	replyFaults := map[string]bool{}    // command id -> reject its first reply publish
+	replyFaultFired := map[string]int{} // command id -> rejected reply publishes so far
+	failedCopies := map[*message.Message]bool{}
+	replyPub := &samplingPub{inner: ps, before: func(msgs []*message.Message) error {
+		mu.Lock()
+		defer mu.Unlock()
+		for _, m := range msgs {
+			op := m.Metadata.Get(requestreply.OperationIDMetadataKey)
+			c := cmdOf[op]
+			if replyFaults[c] && replyFaultFired[c] == 0 {
+				replyFaultFired[c]++
+				if cm := cmdMsgs[op]; cm != nil {
+					failedCopies[cm] = true
+				}
+				return errors.New("scripted reply publisher failure")
+			}
+		}
+		return nil
+	}, after: func(msgs []*message.Message) {
 		mu.Lock()
 		defer mu.Unlock()
 		for _, m := range msgs {
@@ -156,10 +180,18 @@ func run(e *vlib.Env) vlib.Result {
 		res.Verdict, res.Reason = vlib.HarnessError, err.Error()
 		return res
 	}
+	var onHandle cqrs.CommandProcessorOnHandleFn
+	if useOnHandle {
+		// the documented pass-through form
+		onHandle = func(params cqrs.CommandProcessorOnHandleParams) error {
+			return params.Handler.Handle(params.Message.Context(), params.Command)
+		}
+	}
 	proc, err := cqrs.NewCommandProcessorWithConfig(router, cqrs.CommandProcessorConfig{
 		GenerateSubscribeTopic: func(cqrs.CommandProcessorGenerateSubscribeTopicParams) (string, error) { return id + "/commands", nil },
 		SubscriberConstructor:  func(cqrs.CommandProcessorSubscriberConstructorParams) (message.Subscriber, error) { return ps, nil },
 		Marshaler:              marshaler, Logger: logger,
+		OnHandle: onHandle,
 	})
 	if err != nil {
 		res.Verdict, res.Reason = vlib.HarnessError, err.Error()
@@ -171,6 +203,11 @@ func run(e *vlib.Env) vlib.Result {
 		att := handlerCalls[c.ID]
 		mu.Unlock()
 		events.Add(1)
+		if att > 60 {
+			// no script redelivers a command that often: a redelivery loop (it would never become quiescent)
+			id := c.ID
+			runawayOnce.Do(func() { runawayCmd.Store(&id); close(runaway) })
+		}
 		if att <= c.Fails {
 			return Res{ID: c.ID, Attempt: att}, fmt.Errorf("handler failed for %s attempt %d", c.ID, att)
 		}
@@ -182,6 +219,14 @@ func run(e *vlib.Env) vlib.Result {
 	}
 	runDone := make(chan struct{})
 	go func() { defer close(runDone); router.Run(context.Background()) }()
+	go func() {
+		// end a redelivery loop at once (the case is then judged as a violation below)
+		<-runaway
+		if runawayCmd.Load() != nil {
+			router.Close()
+			ps.Close()
+		}
+	}()
 	if oc, _ := vlib.WaitClosed(router.Running(), wo); oc != vlib.Done {
 		res.Inconclusive("router did not start")
 		return res
@@ -211,6 +256,11 @@ func run(e *vlib.Env) vlib.Result {
 		}
 		if c.behaviour == "never-read" || c.behaviour == "one-late" {
 			stoppedReading++
+		}
+		if c.fails == 0 && r.Chance(0.25) {
+			// the reply publisher rejects the first reply: the command must be nacked and redelivered, the second reply arrives
+			c.replyFault = true
+			replyFaults[c.id] = true
 		}
 		callers[i] = c
 	}
@@ -312,6 +362,9 @@ func run(e *vlib.Env) vlib.Result {
 			if !ackErrors {
 				want = c.fails + 1
 			}
+			if c.replyFault {
+				want++
+			}
 			if handlerCalls[c.id] < want {
 				return false
 			}
@@ -322,8 +375,26 @@ func run(e *vlib.Env) vlib.Result {
 	if useTimeout {
 		woT.NotBefore = start.Add(timeout + 20*time.Millisecond)
 	}
-	vlib.WaitUntil(allHandled, woT)
-	vlib.Settle(woT)
+	vlib.WaitUntil(func() bool { return allHandled() || runawayCmd.Load() != nil }, woT)
+	// let everything settle - unless a redelivery loop shows up (it never settles)
+	vlib.WaitUntil(func() bool { return runawayCmd.Load() != nil }, woT)
+	if c := runawayCmd.Load(); c != nil {
+		mu.Lock()
+		calls := handlerCalls[*c]
+		mu.Unlock()
+		res.Fail("runaway-redelivery", "command %s was handed to the handler %d times and is still being redelivered (no script nacks a command that often); %s", *c, calls, spec)
+		close(lateCancel)
+		for _, c := range callers {
+			if c.cancelCtx != nil {
+				c.cancelCtx()
+			}
+		}
+		vlib.WaitClosed(runDone, wo)
+		res.Events = int(events.Load())
+		res.NonTrivial = true
+		res.Sig = vlib.Sig(spec, "runaway")
+		return res
+	}
 	close(lateCancel)
 	allDone := make(chan struct{})
 	go func() {
@@ -378,13 +449,23 @@ func run(e *vlib.Env) vlib.Result {
 			// cmdMsgs keeps the last delivered copy of the command: its outcome decides the expected settlement
 			if ackErrors {
 				// handler errors are acked: no redelivery, so exactly one handler call and no nacked delivery
-				if handlerCalls[c] != 1 {
-					res.Fail("command-settlement", "command %s: AckCommandErrors=true but the handler ran %d times (the command was redelivered); %s", c, handlerCalls[c], spec)
+				wantCalls := 1
+				if cl.replyFault {
+					wantCalls = 2
+				}
+				if handlerCalls[c] != wantCalls {
+					res.Fail("command-settlement", "command %s: AckCommandErrors=true, %d reply publish failure(s): the handler ran %d times, want %d; %s", c, wantCalls-1, handlerCalls[c], wantCalls, spec)
 				}
 				for i, cp := range cmdCopies[op] {
-					if s := vlib.Settled(cp); s != "ack" {
+					if s := vlib.Settled(cp); s != "ack" && !failedCopies[cp] {
 						res.Fail("command-settlement", "command %s: AckCommandErrors=true but delivery #%d of the command is %q; %s", c, i+1, s, spec)
 					}
+				}
+			}
+			// a delivery whose reply could not be published must never be acked ("only after the reply was published")
+			for i, cp := range cmdCopies[op] {
+				if failedCopies[cp] && vlib.Settled(cp) == "ack" {
+					res.Fail("acked-without-reply", "command %s: delivery #%d was acked although the Publish of its reply failed; %s", c, i+1, spec)
 				}
 			}
 			wantAck := ackErrors || handlerCalls[c] > cl.fails
@@ -453,11 +534,17 @@ func run(e *vlib.Env) vlib.Result {
 }
 
 type samplingPub struct {
-	inner message.Publisher
-	after func([]*message.Message)
+	inner  message.Publisher
+	before func([]*message.Message) error
+	after  func([]*message.Message)
 }
 
 func (p *samplingPub) Publish(topic string, msgs ...*message.Message) error {
+	if p.before != nil {
+		if err := p.before(msgs); err != nil {
+			return err
+		}
+	}
 	err := p.inner.Publish(topic, msgs...)
 	p.after(msgs)
 	return err
